@@ -17,7 +17,7 @@
 EXTENDS Integers, Sequences, FiniteSets
 
 ImportChoices == {0, 1, 3}
-AnnChoices == {"default", "extra_derives", "extra_attr", "twice"}
+AnnChoices == {"default", "extra_derives", "extra_attr", "twice", "with_copy"}
 Cfg == [opaque : BOOLEAN, wild : BOOLEAN, from : BOOLEAN, nostd : BOOLEAN, imports : ImportChoices, ann : AnnChoices]
 Default == [opaque |-> TRUE, wild |-> FALSE, from |-> FALSE, nostd |-> FALSE, imports |-> 0, ann |-> "default"]
 
@@ -30,9 +30,11 @@ Annotations(a) ==
       [] a = "extra_derives" -> <<DefaultLine, "#[derive(PartialOrd, Ord)]">>
       [] a = "extra_attr" -> <<DefaultLine, "#[allow(dead_code)]", "#[cfg_attr(feature = \"verif\", repr(C))]">>
       [] a = "twice" -> <<DefaultLine, "#[derive(Eq, Hash, Eq)]", DefaultLine>>
+      \* Copy is a derive the generator adds on its own to some types: listed by the user too, and not last
+      [] a = "with_copy" -> <<"#[derive(Clone, Copy)]", DefaultLine>>
 
 Required == {"AsnType", "Debug", "Clone", "Decode", "Encode", "PartialEq"}
-ExtraDerives(a) == IF a = "extra_derives" THEN {"PartialOrd", "Ord"} ELSE {}
+ExtraDerives(a) == IF a = "extra_derives" THEN {"PartialOrd", "Ord"} ELSE IF a = "with_copy" THEN {"Copy"} ELSE {}
 ExtraAttrs(a) == IF a = "extra_attr" THEN <<"#[allow(dead_code)]", "#[cfg_attr(feature=\"verif\",repr(C))]">> ELSE <<>>
 
 --------------------------------------------------------------------------------
